@@ -14,9 +14,9 @@ Local Open Scope R_scope.
        branches are its values at the degenerate parameters (limits consistent) --- *)
 Theorem C11_deriv_integral_cases : forall thr_dE thr_x thr_y w ev dt p q m n,
   0 < thr_dE -> 0 < thr_x -> 0 < thr_y ->
-  (Rabs (di_b ev p q) < thr_dE -> di_b ev p q = 0) ->
-  (Rabs (di_x w ev m n) < thr_x -> di_x w ev m n = 0) ->
-  (Rabs (di_x w ev m n + di_b ev p q) < thr_y -> di_x w ev m n + di_b ev p q = 0) ->
+  (Rabs (di_b ev p q * dt) < thr_dE -> di_b ev p q = 0) ->
+  (Rabs (di_x w ev m n * dt) < thr_x -> di_x w ev m n = 0) ->
+  (Rabs ((di_x w ev m n + di_b ev p q) * dt) < thr_y -> di_x w ev m n + di_b ev p q = 0) ->
   is_RInt (dint_re (di_x w ev m n) (di_b ev p q)) 0 dt
           (fst (deriv_integral_entry RO (thr_dE, thr_x, thr_y) w ev dt p q m n)) /\
   is_RInt (dint_im (di_x w ev m n) (di_b ev p q)) 0 dt
@@ -33,9 +33,9 @@ Proof. exact inner_integral. Qed.
 Example C11_deriv_integral_cases_sat :
   let thr := Rdya (fst di_thr_dE) (snd di_thr_dE) in
   0 < thr /\
-  (Rabs (di_b [0; 1] 0 1) < thr -> di_b [0; 1] 0 1 = 0) /\
-  (Rabs (di_x 3 [0; 1] 0 1) < thr -> di_x 3 [0; 1] 0 1 = 0) /\
-  (Rabs (di_x 3 [0; 1] 0 1 + di_b [0; 1] 0 1) < thr -> di_x 3 [0; 1] 0 1 + di_b [0; 1] 0 1 = 0).
+  (Rabs (di_b [0; 1] 0 1 * 1) < thr -> di_b [0; 1] 0 1 = 0) /\
+  (Rabs (di_x 3 [0; 1] 0 1 * 1) < thr -> di_x 3 [0; 1] 0 1 = 0) /\
+  (Rabs ((di_x 3 [0; 1] 0 1 + di_b [0; 1] 0 1) * 1) < thr -> di_x 3 [0; 1] 0 1 + di_b [0; 1] 0 1 = 0).
 Proof.
   assert (P : 0 < Rdya (fst di_thr_dE) (snd di_thr_dE) < 1).
   { apply (Rdya_small 944473296573929 73); reflexivity. }
@@ -46,8 +46,8 @@ Proof.
 Qed.
 
 (* every division of _derivative_integral is guarded by a mask *)
-Theorem C11_di_div_safe : forall thr_dE thr_x thr_y w ev p q m n, 0 < thr_dE -> 0 < thr_x -> 0 < thr_y ->
-  forall bx, In bx (di_denoms RO (thr_dE, thr_x, thr_y) w ev p q m n) -> fst bx = false -> snd bx <> 0.
+Theorem C11_di_div_safe : forall thr_dE thr_x thr_y w ev dt p q m n, 0 < thr_dE -> 0 < thr_x -> 0 < thr_y ->
+  forall bx, In bx (di_denoms RO (thr_dE, thr_x, thr_y) w ev dt p q m n) -> fst bx = false -> snd bx <> 0.
 Proof. exact di_div_safe. Qed.
 
 (* --- calculate_filter_function_derivative: dF_aa = 2 Re sum_k conj(B_ak) dB_ak --- *)
@@ -74,48 +74,52 @@ Theorem C11_assembly_product_rule : forall G nj s k (Bg : nat -> nat -> R -> Cx)
 Proof. exact assembly_product_rule. Qed.
 Print Assumptions C11_assembly_product_rule.
 
-(* --- the d == 2 shortcut --- *)
+(* --- the per-segment derivative uses the general expression for every d (fix 083da5e) --- *)
+Theorem C11_M_entry_general : forall d DI (Cb NT : Mat) r c, M_entry RO d DI Cb NT r c = Mgen_entry RO d DI Cb NT r c.
+Proof. exact M_entry_general. Qed.
+(* the removed d == 2 shortcut agreed with it exactly for traceless operators ... *)
 Theorem C11_d2_shortcut_eq_general_traceless : forall (DI : nat -> nat -> nat -> nat -> Cx) (Cb NT : Mat),
   (forall p p' m n, DI p p m n = DI p' p' m n) ->
   (forall p q m m', DI p q m m = DI p q m' m') ->
   mtrace RO 2 Cb = 0c -> mtrace RO 2 NT = 0c ->
   forall r c, (r < 2)%nat -> (c < 2)%nat ->
-  Mshort_entry RO 2 DI Cb NT r c = Mgen_entry RO 2 DI Cb NT r c.
+  Mshort_entry_prefix DI Cb NT r c = Mgen_entry RO 2 DI Cb NT r c.
 Proof. exact d2_shortcut_eq_general_traceless. Qed.
-Theorem C11_d2_shortcut_eq_general_model : forall th3 w ev dt (Cb NT : Mat),
-  mtrace RO 2 Cb = 0c -> mtrace RO 2 NT = 0c ->
-  forall r c, (r < 2)%nat -> (c < 2)%nat ->
-  M_entry RO 2 (deriv_integral_entry RO th3 w ev dt) Cb NT r c
-  = Mgen_entry RO 2 (deriv_integral_entry RO th3 w ev dt) Cb NT r c.
-Proof. exact d2_shortcut_eq_general_model. Qed.
-(* FINDING (c11-d2-shortcut-nontraceless): for non-traceless operators the shortcut is wrong *)
-Theorem C11_d2_shortcut_refuted : forall thr_dE thr_x thr_y, 0 < thr_dE -> 0 < thr_x -> 0 < thr_y ->
+(* ... and was wrong otherwise (pre-fix finding c11-d2-shortcut-nontraceless) *)
+Theorem C11_d2_shortcut_prefix_refuted : forall thr_dE thr_x thr_y, 0 < thr_dE -> 0 < thr_x -> 0 < thr_y ->
   exists (w dt : R) (ev : list R) (Cb NT : Mat) (r c : nat), (r < 2)%nat /\ (c < 2)%nat /\
     vg RO ev 0 <> vg RO ev 1 /\
-    M_entry RO 2 (deriv_integral_entry RO (thr_dE, thr_x, thr_y) w ev dt) Cb NT r c
+    M_entry_prefix 2 (deriv_integral_entry RO (thr_dE, thr_x, thr_y) w ev dt) Cb NT r c
     <> Mgen_entry RO 2 (deriv_integral_entry RO (thr_dE, thr_x, thr_y) w ev dt) Cb NT r c.
-Proof. exact d2_shortcut_refuted. Qed.
-Print Assumptions C11_d2_shortcut_refuted.
+Proof. exact d2_shortcut_prefix_refuted. Qed.
+Print Assumptions C11_d2_shortcut_prefix_refuted.
 
-(* --- finiteness of _liouville_derivative --- *)
-Theorem C11_amat_div_safe_distinct : forall d ev,
-  (forall i j, (i < d)%nat -> (j < d)%nat -> i <> j -> vg RO ev i <> vg RO ev j) ->
-  forall x, In x (amat_denoms RO d ev) -> x <> 0.
-Proof. exact amat_div_safe_distinct. Qed.
-(* FINDING (c11-degenerate-segment-nan): two equal eigenvalues => division by zero outside the mask *)
-Theorem C11_finite_refuted_degenerate : forall d ev i j, (i < d)%nat -> (j < d)%nat -> i <> j ->
-  vg RO ev i = vg RO ev j -> In 0 (amat_denoms RO d ev).
-Proof. exact finite_refuted_degenerate. Qed.
-Theorem C11_finite_refuted : exists d ev, In 0 (amat_denoms RO d ev).
-Proof. exact finite_refuted. Qed.
+(* --- finiteness of _liouville_derivative: every division of A_mat is guarded by the degeneracy mask (fix 8c041e1) --- *)
+Theorem C11_amat_div_safe : forall d thr ev dt, 0 < thr ->
+  forall bx, In bx (amat_denoms RO d thr ev dt) -> fst bx = false -> snd bx <> 0.
+Proof. exact amat_div_safe. Qed.
+(* A_mat[i,j] = int_0^dt e^{i Omega_ij t} dt (masked pairs: exactly degenerate, limit value dt consistent) *)
+Theorem C11_amat_entry_integral : forall d thr ev dt i j, 0 < thr -> (i < d)%nat -> (j < d)%nat ->
+  (Rabs ((vg RO ev i - vg RO ev j) * dt) < thr -> vg RO ev i - vg RO ev j = 0) ->
+  is_RInt (fun t => cos ((vg RO ev i - vg RO ev j) * t)) 0 dt (fst (mget RO (amat RO d thr ev dt) i j)) /\
+  is_RInt (fun t => sin ((vg RO ev i - vg RO ev j) * t)) 0 dt (snd (mget RO (amat RO d thr ev dt) i j)).
+Proof. exact amat_entry_integral. Qed.
+(* pre-fix (mask = np.eye(d)): two equal eigenvalues => division by zero (finding c11-degenerate-segment-nan) *)
+Theorem C11_finite_prefix_refuted_degenerate : forall d ev i j, (i < d)%nat -> (j < d)%nat -> i <> j ->
+  vg RO ev i = vg RO ev j -> In 0 (amat_denoms_prefix d ev).
+Proof. exact finite_prefix_refuted_degenerate. Qed.
+Theorem C11_finite_prefix_refuted : exists d ev, In 0 (amat_denoms_prefix d ev).
+Proof. exact finite_prefix_refuted. Qed.
 
-(* --- spectrum shapes --- *)
-(* FINDING (c11-spectrum-shape-subset) *)
-Theorem C11_spectrum_shape_refuted : exists shape n_selected n_all n_omega,
+(* --- spectrum shapes: the same per-operator shapes as infidelity() for the selected operators (fix 1090e57) --- *)
+Theorem C11_spectrum_shape_same : forall shape n_selected n_all n_omega,
+  infidelity_derivative_accepts shape n_selected n_all n_omega = infidelity_accepts shape n_selected n_all n_omega.
+Proof. exact spectrum_shape_same. Qed.
+Theorem C11_spectrum_shape_prefix_refuted : exists shape n_selected n_all n_omega,
   (n_selected <= n_all)%nat /\
   infidelity_accepts shape n_selected n_all n_omega = true /\
-  infidelity_derivative_accepts shape n_selected n_all n_omega = false.
-Proof. exact spectrum_shape_refuted. Qed.
+  infidelity_derivative_accepts_prefix shape n_selected n_all n_omega = false.
+Proof. exact spectrum_shape_prefix_refuted. Qed.
 
 (* --- _liouville_derivative: derivative of the Liouville representation of the propagators --- *)
 (* product rule on Re tr(Q^dagger C_j Q C_k) + Hermitian symmetrisation ("2 Re") *)
@@ -129,15 +133,15 @@ Proof. exact fliou_derive. Qed.
 (* PARTIAL: Duhamel's formula for the derivative of the segment propagator exp(-i(H + u C_h)dt) is the
    hypothesis [Duhamel] (premise 1 below: the derivative of P_s(u) at u0 is the model's U_deriv);
    given it, the model's liouville_deriv entry is the derivative of Q^(t+1)_jk with respect to u_h(t_s). *)
-Theorem C11_liouville_deriv_Duhamel : forall d (Qs Qs1 Qt1 V : Mat) (ev : list R) (dt : R) (Cbar : Mat)
+Theorem C11_liouville_deriv_Duhamel : forall d (thrA : R) (Qs Qs1 Qt1 V : Mat) (ev : list R) (dt : R) (Cbar : Mat)
     (Pu : R -> fmat) (u0 : R),
   (forall i j, (i < d)%nat -> (j < d)%nat ->
-     cderive (fun u => Pu u i j) u0 (toF (u_deriv RO d Qs Qs1 V ev dt Cbar) i j)) ->      (* Duhamel *)
+     cderive (fun u => Pu u i j) u0 (toF (u_deriv RO d thrA Qs Qs1 V ev dt Cbar) i j)) ->      (* Duhamel *)
   feq d (fmul d (Pu u0) (toF Qs)) (toF Qs1) ->
   funitary d (toF Qs1) ->
   forall Cj Ck : Mat, fherm d (toF Cj) -> fherm d (toF Ck) ->
   is_derive (fun u => fliou d (Qt1_of d Qs Qs1 Qt1 Pu u) (toF Cj) (toF Ck)) u0
-    (ld_entry RO d (mmul RO d Qt1 (u_deriv_transformed RO d Qs Qs1 (u_deriv RO d Qs Qs1 V ev dt Cbar)))
+    (ld_entry RO d (mmul RO d Qt1 (u_deriv_transformed RO d Qs Qs1 (u_deriv RO d thrA Qs Qs1 V ev dt Cbar)))
                    (mmul RO d (mmul RO d Cj Qt1) Ck)).
 Proof. exact liouville_deriv_Duhamel. Qed.
 Print Assumptions C11_liouville_deriv_Duhamel.
@@ -146,13 +150,13 @@ Print Assumptions C11_liouville_deriv_Duhamel.
 Definition Pu1 (u : R) : fmat := fun _ _ => cexp' (- (1 + u)).
 Example C11_Duhamel_sat :
   (forall i j, (i < 1)%nat -> (j < 1)%nat ->
-     cderive (fun u => Pu1 u i j) 0 (toF (u_deriv RO 1 [[1c]] [[cexp' (-1)]] [[1c]] [1] 1 [[1c]]) i j)) /\
+     cderive (fun u => Pu1 u i j) 0 (toF (u_deriv RO 1 1 [[1c]] [[cexp' (-1)]] [[1c]] [1] 1 [[1c]]) i j)) /\
   feq 1 (fmul 1 (Pu1 0) (toF [[1c]])) (toF [[cexp' (-1)]]) /\
   funitary 1 (toF [[cexp' (-1)]]) /\ fherm 1 (toF [[1c]]).
 Proof.
   split; [|split; [|split]].
   - intros i j Hi Hj. assert (i = 0)%nat by lia. assert (j = 0)%nat by lia. subst.
-    unfold Pu1. split; simpl.
+    unfold Pu1, u_deriv. rewrite amat_1x1 by lra. split; simpl.
     + auto_derive; auto. unfold toF, mget; simpl. replace (- (1 + 0)) with (-1) by ring. ring.
     + auto_derive; auto. unfold toF, mget; simpl. replace (- (1 + 0)) with (-1) by ring. ring.
   - intros i j Hi Hj. assert (i = 0)%nat by lia. assert (j = 0)%nat by lia. subst.
@@ -165,12 +169,12 @@ Proof.
 Qed.
 
 (* --- identifier selection returns the slice of the full derivative (any instance of Ops) --- *)
-Theorem C11_slice_commutes : forall d thr th3 evs Vs Qs omega basis nopers copers ncoeffs dts ts use_ncd ncd n_idx c_idx,
+Theorem C11_slice_commutes : forall d thr th3 thrA evs Vs Qs omega basis nopers copers ncoeffs dts ts use_ncd ncd n_idx c_idx,
   List.Forall (fun i => (i < List.length nopers)%nat) n_idx -> List.Forall (fun i => (i < List.length copers)%nat) c_idx ->
-  ctrlmat_deriv RO d thr th3 evs Vs Qs omega basis (select [] n_idx nopers) (select [] c_idx copers)
+  ctrlmat_deriv RO d thr th3 thrA evs Vs Qs omega basis (select [] n_idx nopers) (select [] c_idx copers)
                 (select [] n_idx ncoeffs) dts ts use_ncd (select [] n_idx (map (select [] c_idx) ncd))
   = select [] n_idx (map (select [] c_idx)
-      (ctrlmat_deriv RO d thr th3 evs Vs Qs omega basis nopers copers ncoeffs dts ts use_ncd ncd)).
+      (ctrlmat_deriv RO d thr th3 thrA evs Vs Qs omega basis nopers copers ncoeffs dts ts use_ncd ncd)).
 Proof. exact (slice_commutes RO). Qed.
 Print Assumptions C11_slice_commutes.
 
@@ -190,18 +194,23 @@ Proof. exact sens_product_rule. Qed.
 Theorem C11_sens_term_refuted : exists (ncd : R) (b : Cx), sens_term RO ncd 0 (cscal RO 0 b) <> cscal RO ncd b.
 Proof. exact sens_term_refuted. Qed.
 
-(* --- change of the time unit --- *)
-(* FINDING (c11-absolute-threshold): the true parameter integral is homogeneous of degree 2 under
-   (x, b, dt) -> (x/lam, b/lam, lam dt); the model with the extracted absolute masks is not (lam = 2^27) *)
-Theorem C11_time_scaling_refuted :
+(* --- change of the time unit: exact homogeneity of degree 2 with the dimensionless masks (fix 602caf6) --- *)
+Theorem C11_time_scaling : forall lam, 0 < lam -> forall thr_dE thr_x thr_y w ev dt p q m n,
+  0 < thr_dE -> 0 < thr_x -> 0 < thr_y ->
+  deriv_integral_entry RO (thr_dE, thr_x, thr_y) (w / lam) (map (fun e => e / lam) ev) (dt * lam) p q m n
+  = cscal RO (lam * lam) (deriv_integral_entry RO (thr_dE, thr_x, thr_y) w ev dt p q m n).
+Proof. exact time_scaling. Qed.
+Print Assumptions C11_time_scaling.
+(* pre-fix (absolute masks, finding c11-absolute-threshold): not homogeneous (extracted threshold, lam = 2^27) *)
+Theorem C11_time_scaling_prefix_refuted :
   let thr := Rdya 944473296573929 (-73) in
   exists lam w dt : R, 0 < lam /\
-    deriv_integral_entry RO (thr, thr, thr) (w / lam) [0] (dt * lam) 0 0 0 0
-    <> cscal RO (lam * lam) (deriv_integral_entry RO (thr, thr, thr) w [0] dt 0 0 0 0).
-Proof. exact time_scaling_refuted. Qed.
+    deriv_integral_entry_prefix (thr, thr, thr) (w / lam) [0] (dt * lam) 0 0 0 0
+    <> cscal RO (lam * lam) (deriv_integral_entry_prefix (thr, thr, thr) w [0] dt 0 0 0 0).
+Proof. exact time_scaling_prefix_refuted. Qed.
 
 (* --- the list-level functions evaluated by the correspondence check consist of the entries above (any Ops) --- *)
-Theorem C11_ctrlmat_deriv_entry : forall d thr th3 evs Vs Qs omega basis nopers copers ncoeffs dts ts use_ncd ncd a h s o k,
+Theorem C11_ctrlmat_deriv_entry : forall d thr th3 thrA evs Vs Qs omega basis nopers copers ncoeffs dts ts use_ncd ncd a h s o k,
   (a < List.length nopers)%nat -> (h < List.length copers)%nat -> (s < List.length dts)%nat ->
   (o < List.length omega)%nat -> (k < List.length basis)%nat ->
   let G := List.length dts in let nj := List.length basis in let no := List.length omega in
@@ -209,11 +218,11 @@ Theorem C11_ctrlmat_deriv_entry : forall d thr th3 evs Vs Qs omega basis nopers 
   let BTs := sh_BT RO d Vs basis in
   let NTs := noise_NT RO d Vs (nthm nopers a) (nthv ncoeffs a) G in
   let steps := noise_steps RO d G nj no phases BTs (sh_ints RO d thr evs dts omega) NTs in
-  let cd := nth h (map (ctrl_data RO d G nj evs Vs Qs dts (sh_X RO d Qs basis G)) copers) ([], []) in
+  let cd := nth h (map (ctrl_data RO d thrA G nj evs Vs Qs dts (sh_X RO d Qs basis G)) copers) ([], []) in
   let SD := pair_SD RO d G nj no phases BTs (sh_DIs RO d th3 evs dts omega) NTs (fst cd) steps use_ncd
                     (nth2 [] ncd a h) (nthv ncoeffs a) in
   nth k (nth o (nth s (nth h (nth a
-    (ctrlmat_deriv RO d thr th3 evs Vs Qs omega basis nopers copers ncoeffs dts ts use_ncd ncd) []) []) []) []) 0c
+    (ctrlmat_deriv RO d thr th3 thrA evs Vs Qs omega basis nopers copers ncoeffs dts ts use_ncd ncd) []) []) []) []) 0c
   = assemble_entry RO nj G (fun j => nth3 0c SD s j o) (rget RO (nth s (sh_Ls RO d Qs basis) []))
       (fun g j => nth3 0c steps g j o) (fun t j k' => nth4 0 (snd cd) t s j k') k.
 Proof. exact (ctrlmat_deriv_entry RO). Qed.
@@ -234,3 +243,48 @@ Theorem C11_filter_function_derivative_entry : forall na nh G nj no Bm CD a s h 
   = ffd_entry RO nj (fun k => a3get RO Bm a k o)
                     (fun k => nth k (nth o (nth s (nth h (nth a CD []) []) []) []) 0c).
 Proof. exact (filter_function_derivative_entry RO). Qed.
+
+(* --- the per-segment derivative (general expression, every d) is the Duhamel commutator integral --- *)
+(* M[r,c] = int_0^dt e^{i w t} [Phi_h(t), N_a(t)]_rc dt  with Phi_h(t) = int_0^t e^{iHs} C_h e^{-iHs} ds and
+   N_a(t) = e^{iHt} B_a e^{-iHt} in the eigenbasis (no Taylor-branch approximation: masked => exactly zero) *)
+Theorem C11_Mgen_commutator_integral : forall d w ev (Cb NT : Mat) thr_dE thr_x thr_y dt,
+  0 < thr_dE /\ 0 < thr_x /\ 0 < thr_y ->
+  (forall p q m n, (p < d)%nat -> (q < d)%nat -> (m < d)%nat -> (n < d)%nat ->
+    (Rabs (di_b ev p q * dt) < thr_dE -> di_b ev p q = 0) /\
+    (Rabs (di_x w ev m n * dt) < thr_x -> di_x w ev m n = 0) /\
+    (Rabs ((di_x w ev m n + di_b ev p q) * dt) < thr_y -> di_x w ev m n + di_b ev p q = 0)) ->
+  forall r c, (r < d)%nat -> (c < d)%nat ->
+  cRInt (comm_integrand d w ev Cb NT r c) 0 dt
+        (M_entry RO d (deriv_integral_entry RO (thr_dE, thr_x, thr_y) w ev dt) Cb NT r c).
+Proof. exact Mgen_commutator_integral. Qed.
+Print Assumptions C11_Mgen_commutator_integral.
+
+Theorem C11_step_deriv_commutator_integral : forall d w ev (Cb NT : Mat) thr_dE thr_x thr_y dt,
+  0 < thr_dE /\ 0 < thr_x /\ 0 < thr_y ->
+  (forall p q m n, (p < d)%nat -> (q < d)%nat -> (m < d)%nat -> (n < d)%nat ->
+    (Rabs (di_b ev p q * dt) < thr_dE -> di_b ev p q = 0) /\
+    (Rabs (di_x w ev m n * dt) < thr_x -> di_x w ev m n = 0) /\
+    (Rabs ((di_x w ev m n + di_b ev p q) * dt) < thr_y -> di_x w ev m n + di_b ev p q = 0)) ->
+  forall (phase : Cx) (BTj : Mat),
+  cRInt (fun t => cmul' phase (csumn' d (fun n => csumn' d (fun k =>
+                    cmul' (cmul' ic (mget RO BTj n k)) (comm_integrand d w ev Cb NT k n t))))) 0 dt
+        (step_deriv_entry RO d phase BTj
+           (mbuild d d (M_entry RO d (deriv_integral_entry RO (thr_dE, thr_x, thr_y) w ev dt) Cb NT))).
+Proof. exact step_deriv_commutator_integral. Qed.
+
+(* hypotheses satisfiable: two-level segment with eigenvalues 0, 1 at frequency 3, dt = 1, extracted thresholds *)
+Example C11_mask_exact_sat :
+  let thr := Rdya (fst di_thr_dE) (snd di_thr_dE) in
+  forall p q m n, (p < 2)%nat -> (q < 2)%nat -> (m < 2)%nat -> (n < 2)%nat ->
+    (Rabs (di_b [0; 1] p q * 1) < thr -> di_b [0; 1] p q = 0) /\
+    (Rabs (di_x 3 [0; 1] m n * 1) < thr -> di_x 3 [0; 1] m n = 0) /\
+    (Rabs ((di_x 3 [0; 1] m n + di_b [0; 1] p q) * 1) < thr -> di_x 3 [0; 1] m n + di_b [0; 1] p q = 0).
+Proof.
+  assert (P : 0 < Rdya (fst di_thr_dE) (snd di_thr_dE) < 1).
+  { apply (Rdya_small 944473296573929 73); reflexivity. }
+  cbv zeta. set (thr := Rdya (fst di_thr_dE) (snd di_thr_dE)) in *.
+  intros p q m n Hp Hq Hm Hn.
+  destruct p as [|[|p]]; [| |lia]; (destruct q as [|[|q]]; [| |lia]); (destruct m as [|[|m]]; [| |lia]);
+    (destruct n as [|[|n]]; [| |lia]); unfold di_b, di_x, vg, vget; simpl;
+    repeat split; intros H; try ring; exfalso; apply Rabs_def2 in H; lra.
+Qed.
